@@ -8,6 +8,7 @@ package c35
 
 import (
 	"os"
+	"strconv"
 	"strings"
 	"testing"
 
@@ -50,7 +51,10 @@ var cfg = gobatch.Config{Name: "c35", Gen: Generate, OracleOf: oracleOf, Known: 
 func TestGenericVsSpecialised(t *testing.T) {
 	c := cfg
 	c.Rec = rec
-	c.N = rec.Scale(250, 2500)
+	c.N = rec.Scale(150, 1500)
+	if n, _ := strconv.Atoi(os.Getenv("C35_N")); n > 0 {
+		c.N = n // development only
+	}
 	gobatch.Run(t, c)
 }
 
